@@ -152,6 +152,14 @@ def run(tier):
         for e, s, b in exprs:
             for t in (MEMT if (b in (fam[0], fam[3], fam[9], sp, None)) else MEMT[:1] + [rnd.choice(MEMT)]):
                 bad.append(("spindex", t % e, {"scale": s, "base": b, "sp": sp, "tmpl": t}))
+    # registers that cannot address memory (8/16-bit, MMX, XMM, YMM) as base or index, and base/index of different widths
+    for breg in ("al", "ah", "bl", "sil", "r8b", "ax", "bx", "si", "bp", "r8w", "mm0", "xmm0", "xmm9", "ymm1", "ymm15"):
+        for e in ("[%s]" % breg, "[%s+8]" % breg, "[rax+%s]" % breg, "[rax+%s*2]" % breg, "[%s+rcx]" % breg, "[4*%s]" % breg, "[%s+rcx*8-0x100]" % breg):
+            for t in (MEMT if full else rnd.sample(MEMT, 5) + MEMT[:2]):
+                bad.append(("addrreg", t % e, {"reg": breg, "tmpl": t}))
+    for e in ("[rax+ecx]", "[eax+rcx]", "[eax+rcx*2]", "[r8+r9d*4]", "[r8d+r9]", "[rbx+esi+8]", "[ebx+2*r15]", "[rsp+eax]", "[esp+rax*1]"):
+        for t in MEMT:
+            bad.append(("addrreg", t % e, {"reg": "mixed", "tmpl": t}))
     for t in ["lea rax, [rbx", "lea rax, [rbx+8", "mov rax, [[rbx]]", "mov rax, [rbx]]", "mov [rax, rbx", "mov rax, 5, rbx", "add rax, 1, 2", "mov rax, , rbx", "mov , rax",
               "mov rax,", ", rax", "mov rax,, rbx", "push", "add", "mov rax rbx", "bogus", "bogus rax", "movv rax, rbx", "mo rax, rbx", "rax mov, rbx", "vpaddb ymm1, ymm2, ymm3, ymm4, ymm5",
               "lea rax, []", "lea rax, [+]", "lea rax, [*2]", "lea rax, [rbx*]", "lea rax, [rbx+*2]", "lea rax, [rbx**2]", "mov rax, [rbx+rcx+rdx]", "mov rax, [rbx*2*2]",
@@ -162,9 +170,9 @@ def run(tier):
             for b in (list(range(0x7f, 0x100)) if full or pos % 3 == 0 else [0x7f, 0x80, 0xc3, 0xff]):
                 bad.append(("hibyte", t[:pos] + chr(b) + t[pos:], {"pos": pos, "byte": b, "tmpl": t}))
     # families (iii) and (iv): nasm is the referee for "invalid" as well - a line nasm assembles is not demanded to be rejected
-    ref = oracle.nasm_many([t for fam, t, m in bad if fam in ("scale", "spindex", "syntax")])
+    ref = oracle.nasm_many([t for fam, t, m in bad if fam in ("scale", "spindex", "syntax", "addrreg")])
     nref = len(bad)
-    bad = [(fam, t, m) for fam, t, m in bad if fam not in ("scale", "spindex", "syntax") or ref[t][0] is None]
+    bad = [(fam, t, m) for fam, t, m in bad if fam not in ("scale", "spindex", "syntax", "addrreg") or ref[t][0] is None]
     dropped_by_referee = nref - len(bad)
     # (vi) junk in front of a malformed line does not rescue it: characters that are neither letters nor the comment (';') / macro ('%') /
     # label (':') markers - a line with a ':' is a label line and is skipped as a whole, as documented
@@ -204,7 +212,7 @@ def run(tier):
                 v.sample({"family": fam, "line": repr(text), "placement": pl, "opts": mask, "rc": r["rc"]})
     v.cov["rule"] = ("(i) every spec mnemonic x every operand-kind tuple over {scalar reg, xmm, ymm, memory, immediate} with 0-4 operands (781 tuples); a tuple is 'not defined in x86-64' iff nasm rejects ALL its "
                      "instantiations (live referee, %d lines this run), then instantiated for the library; (ii) every one-character edit of every register name that is lexically a name and not a register/keyword, in "
-                     "register, memory-base and index positions; (iii) scales 0,3,5,6,7,9,10,16,42 in both factor orders; the stack pointer as scaled index, as index of itself, with every base; (iv) bracket / comma / "
+                     "register, memory-base and index positions; (iii) scales 0,3,5,6,7,9,10,16,42 in both factor orders; the stack pointer as scaled index, as index of itself, with every base; 8/16-bit, MMX, XMM and YMM registers as base or index and base/index of different widths; (iv) bracket / comma / "
                      "operand-after-immediate / empty-operand / unknown-mnemonic syntax errors; (v) bytes 0x7f-0xff at positions of 8 template lines; (vi) lines of (i)-(iv) behind 1-3 junk characters (every printable non-letter except ';', '%%' and ':'). Each alone and first/middle/last in a program with valid neighbours, "
                      "option combos sampled. Oracle: rc == EXIT_FAILURE and no byte at or after the rejected line's start differs from the prefill" % nnasm)
     v.cov["exhaustive"] = False
